@@ -171,6 +171,14 @@ func (i *Index) Chunks(rid, beg, end int) ([]bgzf.Chunk, error) {
 	if rid < 0 || rid >= len(i.Refs) {
 		return nil, index.ErrNoReference
 	}
+	// The interval is half open and lies in the indexable range;
+	// an end beyond the range is cut back to it.
+	if beg < 0 || end < beg {
+		return nil, index.ErrInvalid
+	}
+	if end > 1<<indexWordBits {
+		end = 1 << indexWordBits
+	}
 	i.sort()
 	ref := i.Refs[rid]
 
